@@ -17,6 +17,8 @@ pub enum Base {
     Nvid(usize),
     Report(usize),
     Lend(usize),
+    /// lend a value that owns a clone of the mock and calls m(a) on it from its Drop (swallowing a panic)
+    LendCall(usize, u32, u8),
     Count(usize),
     CallOwn(usize, u32, u8),
     Arm(u32),
@@ -196,7 +198,55 @@ fn show_val(s: String) -> String {
     }
 }
 
+/// slots whose value chain holds a `Caller`
+static CALLERS: std::sync::Mutex<Vec<usize>> = std::sync::Mutex::new(Vec::new());
+
+fn has_callers(i: usize) -> bool {
+    CALLERS.lock().unwrap().contains(&i)
+}
+
+/// a lent value that calls the mock (through the clone it owns) when the value chain drops it
+struct Caller {
+    u: Option<Unimock>,
+    m: u32,
+    a: u8,
+}
+
+impl Drop for Caller {
+    fn drop(&mut self) {
+        let u = self.u.take().unwrap();
+        let (m, a) = (self.m, self.a);
+        let _ = catch_unwind(AssertUnwindSafe(|| {
+            let _ = do_call(&u, m, a);
+        }));
+        let _ = catch_unwind(AssertUnwindSafe(move || drop(u)));
+    }
+}
+
 pub fn run_base(slots: &mut Vec<Option<Unimock>>, unwinding: bool, base: &Base) -> String {
+    // case-language rule (Model/Run.v [releasing]): an instance that lent a Caller may only be destroyed by an event that
+    // STARTS with the teardown/drop (drop, verify, clone_from, refused no_verify_in_drop), not by one that runs other code first
+    let blocked = match *base {
+        Base::CallOwn(i, _, _) | Base::Report(i) => has_callers(i),
+        Base::Call(i, m, _) => m >= 10 && has_callers(i),
+        _ => false,
+    };
+    if blocked {
+        return "invalid".into();
+    }
+    let line = run_base_inner(slots, unwinding, base);
+    let mut callers = CALLERS.lock().unwrap();
+    callers.retain(|&i| i < slots.len() && slots[i].is_some());
+    if let Base::CloneFrom(i, j) = *base {
+        let _ = j;
+        if line != "invalid" {
+            callers.retain(|&k| k != i);
+        }
+    }
+    line
+}
+
+fn run_base_inner(slots: &mut Vec<Option<Unimock>>, unwinding: bool, base: &Base) -> String {
     if let Base::Twin = base {
         unreachable!("twin is handled by run_events");
     }
@@ -217,6 +267,18 @@ pub fn run_base(slots: &mut Vec<Option<Unimock>>, unwinding: bool, base: &Base) 
             }
             let u = slots[i].as_ref().unwrap();
             let _lent: &Unimock = u.make_ref(u.clone());
+            "ok".into()
+        }
+        Base::LendCall(i, m, a) => {
+            if !alive(slots, i) {
+                return "invalid".into();
+            }
+            let u = slots[i].as_ref().unwrap();
+            let _lent: &Caller = u.make_ref(Caller { u: Some(u.clone()), m, a });
+            let mut callers = CALLERS.lock().unwrap();
+            if !callers.contains(&i) {
+                callers.push(i);
+            }
             "ok".into()
         }
         Base::Count(i) => {
@@ -393,6 +455,7 @@ pub fn parse_event(tok: &str) -> Event {
         "report" => Base::Report(ix(1)),
         "twin" => Base::Twin,
         "lend" => Base::Lend(ix(1)),
+        "lendcall" => Base::LendCall(ix(1), ix(2) as u32, ix(3) as u8),
         "count" => Base::Count(ix(1)),
         "callown" => Base::CallOwn(ix(1), ix(2) as u32, ix(3) as u8),
         "arm" => Base::Arm(ix(1) as u32),
@@ -422,6 +485,7 @@ pub fn fallback_token(tok: &str) -> bool {
 
 pub fn run_events(mut make: impl FnMut() -> Unimock, events: &[Event], out: &mut impl Write) {
     ARMED_GLOBAL.store(0, std::sync::atomic::Ordering::SeqCst);
+    CALLERS.lock().unwrap().clear();
     let made = if NEW_UNWINDING.swap(false, std::sync::atomic::Ordering::SeqCst) {
         struct Cleanup<'a, F: FnMut() -> Unimock>(&'a mut Option<std::thread::Result<Unimock>>, &'a mut F);
         impl<F: FnMut() -> Unimock> Drop for Cleanup<'_, F> {
